@@ -16,7 +16,7 @@ import (
 
 func init() { register("ctx", ctxEngine) }
 
-func hx(s string) uint64 {
+func hexu(s string) uint64 {
 	v, err := strconv.ParseUint(s, 16, 64)
 	if err != nil {
 		panic("bad hex " + s)
@@ -82,9 +82,9 @@ func ctxApply(r *rt.Runtime, op string) (outcome string, ret string) {
 	switch f[0] {
 	case "P":
 		def := rt.RuntimeContextDef{
-			HardLimits:    rt.RuntimeResources{Cpu: hx(f[1]), Memory: hx(f[2])},
-			SoftLimits:    rt.RuntimeResources{Cpu: hx(f[3]), Memory: hx(f[4])},
-			RequiredFlags: rt.ComplianceFlags(hx(f[5])),
+			HardLimits:    rt.RuntimeResources{Cpu: hexu(f[1]), Memory: hexu(f[2])},
+			SoftLimits:    rt.RuntimeResources{Cpu: hexu(f[3]), Memory: hexu(f[4])},
+			RequiredFlags: rt.ComplianceFlags(hexu(f[5])),
 		}
 		if f[6] == "1" {
 			def.GCPolicy = rt.IsolateGCPolicy
@@ -96,13 +96,13 @@ func ctxApply(r *rt.Runtime, op string) (outcome string, ret string) {
 			ret = " ret=" + ctxDump(c)
 		}
 	case "C":
-		r.RequireCPU(hx(f[1]))
+		r.RequireCPU(hexu(f[1]))
 	case "M":
-		r.RequireMem(hx(f[1]))
+		r.RequireMem(hexu(f[1]))
 	case "R":
-		r.ReleaseMem(hx(f[1]))
+		r.ReleaseMem(hexu(f[1]))
 	case "S":
-		r.SetStopLevel(rt.StopLevel(hx(f[1])))
+		r.SetStopLevel(rt.StopLevel(hexu(f[1])))
 	default:
 		panic("bad op " + op)
 	}
